@@ -128,6 +128,24 @@ pub fn run(ctx: &Ctx) -> CheckResult {
                 }
             }
         }
+        // medium periods on tick-grid walks (ties, plateaus, double tops at every phase of the ring)
+        {
+            let ns: Vec<usize> = (6..=40usize).filter(|n| th || n % 3 == 0 || *n == 7 || *n == 10 || *n == 14 || *n == 20).collect();
+            let tl = if th { 6000 } else { 1200 };
+            let mut cb = vec![];
+            let mut cs = vec![];
+            for &n in &ns {
+                cb.push(Cfg::pm(Kind::Ce, n, 3.0));
+                cb.push(Cfg::pm(Kind::Kc, n, 2.0));
+                cb.push(Cfg::p1(Kind::Atr, n));
+                cs.push(Cfg::p1(Kind::Ema, n));
+                cs.push(Cfg::p3(Kind::Macd, n, 2 * n + 1, 9));
+                cs.push(Cfg::pm(Kind::Kc, n, -1.5));
+            }
+            cb.push(Cfg::p0(Kind::Tr));
+            fams.extend(tick_walk_families(&cb, tl, ctx.seed, true, false));
+            fams.extend(tick_walk_families(&cs, tl, ctx.seed, false, false));
+        }
         let chunks: Vec<&[Family]> = fams.chunks(8).collect();
         let outs = par_run(ctx, &chunks, |_, chunk| {
             let mut out = JobOut::default();
